@@ -562,3 +562,50 @@ Definition number_filter (n : Z) (sqs : list nat) (datas : list sqdata) (sel : s
                                         | None => s
                                         end) (prefixes (removelast datas)) sel in
     (sel', negb (sel_empty sel')).
+
+(* ------------------------------------------------------------------ *)
+(* Host and flag (protocol) relations to a sub-query                   *)
+(* ------------------------------------------------------------------ *)
+(* both take the forbidden result positions of ONE other sub-query out of the selection *)
+Definition single_remove (sq : nat) (forb : list nat) (sel : subsel) : subsel * bool :=
+  let sel' := sel_remove [sq] [forb] sel in (sel', negb (sel_empty sel')).
+
+(* HostCondition with two sources (this stream's client or server host, the sub-query stream's client or
+   server host), no literal host: hosts are byte lists, [mask] is Mask4 or Mask6 according to this stream's
+   host size.  for i := range myH { if (myH[i]^otherH[i])&mask[i] == 0 { continue } ... } *)
+Definition bytes_differ (a b m : list N) : bool :=
+  existsb (fun abm => negb (N.eqb (N.land (N.lxor (fst (fst abm)) (snd (fst abm))) (snd abm)) 0))
+          (combine (combine a b) m).
+
+(* is sub-query result [other] forbidden (after 2c56518: leave the byte loop at the first difference) *)
+Definition host_forbidden (invert : bool) (myh mask other : list N) : bool :=
+  if negb (Nat.eqb (length myh) (length other)) then negb invert      (* different IP version *)
+  else if bytes_differ myh other mask then negb invert               (* the hosts differ *)
+  else invert.                                                       (* the hosts are equal *)
+
+Definition ipclass (h : list N) : nat := Nat.div (length h) 16.       (* hostSize/16 *)
+
+(* [masks_zero]: Mask4 and Mask6 are both unspecified -> only the IP version is compared, per host group:
+   otherHosts[size/16] collects the results, the two sets are swapped unless the condition is inverted, the
+   forbidden set of this stream's host group is otherHosts[mySize/16] *)
+Definition host_filter (invert masks_zero : bool) (myh mask : list N) (sq : nat) (others : list (list N))
+           (sel : subsel) : subsel * bool :=
+  let forb :=
+    if masks_zero then
+      filter (fun p => let same := Nat.eqb (ipclass (nth p others [])) (ipclass myh) in
+                       if invert then same else negb same) (seq 0 (length others))
+    else filter (fun p => host_forbidden invert myh mask (nth p others [])) (seq 0 (length others)) in
+  single_remove sq forb sel.
+
+(* FlagCondition over this stream and one other sub-query (what the parser builds for
+   protocol:@a:protocol@): fulfilled when (own xor other) != value, all already masked.
+   flagValues maps (value xor flag of a result) to the positions with that flag; the entry of this stream's
+   flag is forbidden.  The table is the same grouping as for numbers. *)
+Definition flag_filter (own value : N) (sq : nat) (flags : list N) (sel : subsel) : subsel * bool :=
+  let table := group_values (map (fun f => Z.of_N (N.lxor value f)) flags) in
+  match find (fun e => Z.eqb (fst e) (Z.of_N own)) table with
+  | None => (sel, true)                       (* no combination of sub queries produces the forbidden result *)
+  | Some (_, forb) =>
+      if Nat.eqb (length table) 1 then (sel, false)   (* the only combination produces the forbidden result *)
+      else single_remove sq forb sel
+  end.
